@@ -274,6 +274,33 @@ def base_specs(ctx) -> dict:
     }
 
 
+_COLL = {}
+def _colliding_seed(spec: dict):
+    """a different seed for which the configuration gets the SAME cache file name (the name carries only hash % 10**5): found by brute
+    force over the serialized text, verified on real configuration objects"""
+    import hashlib
+    key = json.dumps(spec, sort_keys=True, default=str)
+    if key in _COLL: return _COLL[key]
+    out = None
+    try:
+        cfg = make_cfg(spec)
+        text = json.dumps(cfg.serialize())
+        seed0 = int(cfg.seed)
+        needle = f'"seed": {seed0}'
+        if text.count(needle) == 1 and int.from_bytes(hashlib.sha256(text.encode()).digest(), "big") == cfg.stable_hash_cfg():
+            want = cfg.stable_hash_cfg() % 10**5
+            for sd in range(1, 600000):
+                if sd == seed0: continue
+                h = int.from_bytes(hashlib.sha256(text.replace(needle, f'"seed": {sd}').encode()).digest(), "big") % 10**5
+                if h == want:
+                    c2 = make_cfg(dict(spec, seed=sd))
+                    if c2.to_fname() == cfg.to_fname(): out = sd; break
+    except Exception:
+        out = None
+    _COLL[key] = out
+    return out
+
+
 def foreign_variants(spec: dict) -> list[tuple[str, dict]]:
     """(label, fault) — datasets of OTHER configs to be placed under the requested name"""
     out = []
@@ -292,6 +319,9 @@ def foreign_variants(spec: dict) -> list[tuple[str, dict]]:
         for lab, dx in (("filter_kwargs", 2), ("filter_kwargs-", -1)):     # same filter NAMES, other arguments (stricter / laxer)
             f0 = dict(spec["applied_filters"][0]); f0["kwargs"] = {k: (max(0, x + dx) if isinstance(x, int) else x) for k, x in f0["kwargs"].items()}
             v(lab, applied_filters=[f0] + list(spec["applied_filters"][1:]))
+    cs = _colliding_seed(spec)
+    if cs is not None:
+        v("seed_same_fname", seed=cs)      # another seed whose 5-digit hash suffix, hence cache file NAME, is identical: the name proves nothing
     v("n_mazes_only", n_mazes=spec["n_mazes"] + 2)
     out.append(("same", dict(type="foreign", spec=dict(spec))))
     out.append(("trailing_cgm", dict(type="foreign", spec=dict(spec), collect=True)))
